@@ -3,7 +3,8 @@
 StoreObs.CwdClauses: for a command c and two working directories with the same root, exit status, effect on cond-out
 and reported locations (resolved against the cwd) are equal; NestedClauses: from a nested project the outer one is
 untouched.  Every sub-command x flag combination is executed on identical copies of a project (same history, same fake
-clock) from {root, package dirs, a directory without COND, cond-out, cond-out/<pkg>}; TLC judges each pair.
+clock) from {root, package dirs, a directory without COND, cond-out, cond-out/<pkg>, and - in git-managed projects - a
+nested git checkout without its own cond_config.toml}; TLC judges each pair.
 """
 import json
 import os
@@ -73,6 +74,16 @@ def matrix_worker(scn):
         root = os.path.join(d, "p")
         S.build_store_project(root, scn)
         os.makedirs(os.path.join(root, "nocond", "deep"), exist_ok=True)
+        if scn.get("git"):
+            # a nested git checkout (vendored clone / submodule) WITHOUT its own cond_config.toml: still the same project
+            from .. import project as P
+            vend = os.path.join(root, "vendor", "lib")
+            os.makedirs(vend)
+            with open(os.path.join(vend, "x.txt"), "w") as f:
+                f.write("vendored\n")
+            P.git(vend, "init", "-q")
+            P.git(vend, "add", "-A")
+            P.git(vend, "commit", "-q", "-m", "vendored")
         os.makedirs(os.path.join(root, "nested"), exist_ok=True)
         with open(os.path.join(root, "nested", "cond_config.toml"), "w") as f:
             f.write("disable_git = true\n")
@@ -94,7 +105,7 @@ def matrix_worker(scn):
         rows = []
         label, argv_fn_idx = scn["cmd"]
         argv_fn = dict(commands(None))[label]
-        for k, cwd in enumerate(CWDS + ["nested"]):
+        for k, cwd in enumerate(CWDS + (["vendor/lib"] if scn.get("git") else []) + ["nested"]):
             cd = os.path.join(d, "c%d" % k)
             os.makedirs(cd)
             croot = os.path.join(cd, "p")
@@ -118,12 +129,15 @@ def matrix_worker(scn):
 
 
 def scenario(rng, k, label):
-    proj = G.base_project(rng)
+    proj = G.base_project(rng, git=(k % 2 == 1))
     prefix = [G.run_step(rng, 100, again=False, p_fail=0.3)]
     if rng.random() < 0.6:
         prefix.append(G.run_step(rng, 150, again=True, p_fail=0.4))
     prefix.append({"cmd": "plant", "entries": [e for e in G.gc_plants(rng) if e.get("kind") != "symlink"]})
     scn = {"project": proj, "prefix": prefix, "cmd": (label, 0), "tag": [k, label]}
+    if k % 2 == 1:
+        proj["config"] = ""
+        scn["git"] = {"commits": 2}
     if label == "restore":
         # an archive of an earlier state that can be restored (different versions than the current ones)
         scn["prefix"] = [G.run_step(rng, 50, again=False, p_fail=0.0), {"cmd": "run", "argv": ["archive", "-o", "../pre.tar.gz"]},
